@@ -139,6 +139,10 @@ def foStep (i : FoInst) (op : String) (a : List String) : Option (FoInst × Stri
     let locks := ((List.range i.st.nextLid).filter (fun l => !(i.st.kl l).closed)).length
     pure (i, s!"build={g.builds} failed={g.failed} refreshed={g.refreshed} buildcalls={g.buildCalls} locks={locks}")
   | "summary", [] => pure (i, foSummary i)
+  | "owner", [t] => do
+    -- was goroutine t elected owner of its key lock (as opposed to finding the key locked and waiting)?
+    let t ← parseNat t
+    pure (i, if (i.st.th t).owner then "1" else "0")
   | _, _ => none
 
 end Cache.Drv
